@@ -21,7 +21,11 @@ RULE = (
     'unit vector per present crossing: the offsets are a linear function of '
     'the crossing values for a fixed pattern, so agreement on a basis plus '
     'the dense vectors below decides all values) plus dense value vectors '
-    'over {0,1,3,7} at scales 1, 3600 and 1e6.  Oracle: exact rational '
+    'over {0,1,3,7} at scales 1, 3600 and 1e6; and chains, stars and ladders '
+    'of every size from 2 to 160 (400) series, and four long series sharing '
+    '100 or 1000 levels followed by a chain of up to 400 (singular values '
+    'of the normal equations spread over more than 8 orders of magnitude), '
+    'judged by the zero-residual-sum condition.  Oracle: exact rational '
     'solution of the normal equations written from the statement (residuals '
     'of every series sum to zero), uniqueness (rank n-1), agreement of the '
     'returned offsets up to a common shift to 1e-9 of the value scale.  '
@@ -46,6 +50,12 @@ _SOLVER = {}
 CONFIGS = [('uniform', 2.0, 3600, 1.0), ('convex', 0.5, 1800, 0.5),
            ('concave', 2.0, 1200, 0.3)]
 A0 = 16
+
+
+def decoy():
+    from mc.lib import decoy as decoy_mod
+    decoy_mod.workflow()
+    decoy_mod.functions()
 
 
 def BOUND(tier):
@@ -115,7 +125,78 @@ def pattern_space(n, m):
         return {'kind': 'pattern', 'n': n, 'm': m, 'bits': pats[k],
                 'variant': i - offsets[k]}
     return Space('find_offsets/%d series x %d levels' % (n, m), total,
-                 decode, '%d connected presence patterns' % len(pats))
+                 decode, '%d connected presence patterns' % len(pats),
+                 decoy_every=4096)
+
+
+TOPOLOGIES = ['chain', 'star', 'ladder']
+
+
+def big_space(max_n):
+    """Large overlap graphs of fixed shape: every size from 2 to max_n x 3
+    shapes x 2 value patterns.  chain: series i shares exactly one level
+    with series i+1 (worst conditioned); star: every series shares one level
+    with series 0; ladder: chain with a second shared level per pair"""
+    index = [(topo, n, v) for topo in TOPOLOGIES for n in range(2, max_n + 1)
+             for v in (0, 1)]
+    # four long series sharing H levels followed by a chain: the largest
+    # spread of singular values the normal equations meet in practice
+    index += [('head%d+chain' % H, n, v) for H in (100, 1000)
+              for n in range(8, 401, 8) for v in (0, 1)]
+
+    def decode(i):
+        topo, n, v = index[i]
+        return {'kind': 'big', 'topology': topo, 'n': n, 'values': v}
+    return Space('find_offsets/chains, stars and ladders of 2..%d series'
+                 % max_n, len(index), decode, decoy_every=32)
+
+
+def run_big(case):
+    n, topo, v = case['n'], case['topology'], case['values']
+    mapping = {}
+
+    def val(i, h):
+        if v == 0:
+            return float((7 * i + 3 * h) % 11) * 3600.0
+        return float((i * i + 5 * h) % 13) + 0.25 * i
+    first = 0
+    if topo.startswith('head'):
+        H = int(topo[4:topo.index('+')])
+        for h in range(H):
+            mapping[100000 + h] = [(j, val(j, h)) for j in range(4)]
+        first = 3
+    for i in range(first, n - 1):
+        j = 0 if topo == 'star' else i
+        levels = [2 * i] + ([2 * i + 1] if topo == 'ladder' else [])
+        for h in levels:
+            mapping[h] = [(j, val(j, h)), (i + 1, val(i + 1, h))]
+    try:
+        ids, offsets = fit_mod.find_offsets(copy.deepcopy(mapping))
+    except Exception as exc:  # pylint: disable=broad-except
+        return Result(viol=[('crash:' + cs.exc_site(exc), repr(exc)[:200])],
+                      nontrivial=True, outcome='exc')
+    viol = []
+    if list(ids) != list(range(n)):
+        viol.append(('series-ids', 'returned ids %r' % (list(ids)[:8],)))
+    else:
+        off = [float(o) for o in offsets]
+        scale = max([abs(t) for seq in mapping.values() for _, t in seq]
+                    + [abs(o) for o in off] + [1.0])
+        tol = 1e-8 * scale * n
+        sums = [0.0] * n
+        for h, seq in mapping.items():
+            mean = sum(off[i] + t for i, t in seq) / len(seq)
+            for i, t in seq:
+                sums[i] += off[i] + t - mean
+        worst = max(range(n), key=lambda i: abs(sums[i]))
+        if not abs(sums[worst]) <= tol:
+            viol.append((
+                'residuals-do-not-sum-to-zero',
+                '%s of %d series: residuals of series %d sum to %r '
+                '(tolerance %.3g): the offsets do not minimise the spread'
+                % (topo, n, worst, sums[worst], tol)))
+    return Result(viol=viol, nontrivial=n >= 3,
+                  outcome='%s/%d' % (topo, n), obs={'n': n})
 
 
 def event_space(pairs, config):
@@ -134,6 +215,7 @@ def spaces(tier):
             (4, 1), (4, 2), (4, 3), (4, 4)]
     for n, m in dims:
         out.append(pattern_space(n, m))
+    out.append(big_space(160 if tier == 'quick' else 400))
     for config in CONFIGS:
         out.append(event_space(2, config))
     from mc.checks import c13
@@ -349,4 +431,6 @@ def run_case(case):
         return run_pattern(case)
     if case['kind'] == 'sequence':
         return run_sequence(case)
+    if case['kind'] == 'big':
+        return run_big(case)
     return run_tables(case)
